@@ -1024,3 +1024,44 @@ def fam_term(tier, seed):
 
 
 FAMILIES["term"] = fam_term
+
+
+# ----------------------------------------------------------------------------- F-routes (C16)
+
+def fam_routes(tier, seed):
+    """grammars where an unordered container in the generator would show: several field types, enum
+    variants, several cache entries, several rules; no user functions (they go through peginate! too)"""
+    out = []
+
+    def mk(name, rules, alpha, maxlen=3, **meta):
+        m = {"shape": name, "flags": "macro"}
+        m.update(meta)
+        g = Grammar("rt_%04d" % len(out), rules, maxlen=maxlen, meta=m)
+        g.alpha = alpha
+        add_extras(g, random.Random(seed * 7919 + 60 + len(out)), 10 if tier == "quick" else 60, 4, 9)
+        out.append(g)
+
+    mk("many_types", [Rule("S", Clo(Choice(Call("Zed", "f"), Call("Alpha", "f"), Call("Mid", "f"), Call("char", "f"), Call("Beta", "g", boxed=True))), export=True),
+                      Rule("Zed", Lit("z")), Rule("Alpha", Lit("a"), position=True), Rule("Mid", Seq(Lit("m"), Opt(Call("Alpha", "a")))),
+                      Rule("Beta", Lit("b"), memoize=True)], ["z", "a", "m", "b", " "], maxlen=3)
+    mk("caches", [Rule("S", Choice(Seq(Call("Q", "q"), Lit("x")), Seq(Call("P", "p"), Lit("y")), Call("R", "r")), export=True, no_skip_ws=True),
+                  Rule("Q", Lit("a"), memoize=True, no_skip_ws=True), Rule("P", Lit("a"), memoize=True, no_skip_ws=True),
+                  Rule("R", Choice(Seq(Call("R", "l", boxed=True), Lit("a")), Lit("a")), leftrec=True, no_skip_ws=True)],
+       ["a", "x", "y"], maxlen=4)
+    mk("enum_override", [Rule("S", Seq(Call("E", "e"), Clo(Call("E", "rest"))), export=True),
+                         Rule("E", Choice(Call("Yy", "@"), Call("Xx", "@", boxed=True), Call("Ww", "@"))),
+                         Rule("Yy", Lit("y")), Rule("Xx", Lit("x")), Rule("Ww", Lit("w"), string=True)], ["y", "x", "w", " "])
+    mk("strings_chars", [Rule("S", Seq(Call("Id", "id"), Opt(Seq(Lit("="), Call("Num", "n"))), Eoi()), export=True, position=True),
+                         Rule("Id", Clo(Call("IdChar"), plus=True), string=True, no_skip_ws=True),
+                         CharRule("IdChar", [("range", "a", "b"), ("lit", "_")]),
+                         Rule("Num", Clo(Range("0", "1"), plus=True), string=True, no_skip_ws=True, position=True)],
+       ["a", "_", "=", "1", " "], maxlen=3)
+    mk("includes", [Rule("S", Seq(Inc("Pair"), Clo(Seq(Lit(","), Inc("Pair")))), export=True),
+                    Rule("Pair", Seq(Call("K", "k"), Lit(":"), Call("V", "v"))), Rule("K", Lit("k")), Rule("V", Lit("v"))],
+       ["k", "v", ":", ",", " "], maxlen=3)
+    mk("keywords", [Rule("S", Seq(Call("type", "fn"), Opt(Call("match", "loop"))), export=True),
+                    Rule("type", Lit("t")), Rule("match", Lit("m"))], ["t", "m", " "])
+    return out
+
+
+FAMILIES["routes"] = fam_routes
